@@ -1,5 +1,6 @@
 import ApolloModel.Proofs.Lexer3
 import ApolloModel.Proofs.LexerTokens
+import ApolloModel.Proofs.LexerWhole
 /-
 C03 — The lexer implements the GraphQL lexical grammar.
 
@@ -11,7 +12,8 @@ length ≤ 4/5 over one representative per character class, deeper targeted alph
 Proved here for ALL inputs: losslessness and termination (independent of the transition table),
 exact token-limit behaviour, maximal munch for names and punctuators.  The kinds/boundaries of
 numbers and strings and "no error ⟺ valid token sequence" are checked against an independent
-reference lexer of the October-2021 grammar in the harness (PARTIAL: not yet a theorem).
+reference lexer of the October-2021 grammar in the harness, and proved below (section Grammar):
+per-kind iff theorems and the whole-input theorem `lex_ok_iff_spec_tokens`.
 -/
 namespace Apollo.C03
 open Apollo.Lex
@@ -234,28 +236,77 @@ theorem advance_token_sound (c : Char) (src : Str) (k : Kind) (t rest : Str)
 theorem lex_ok_tokens_sound (src : Str) (h : ∀ it ∈ lex none src, it.isErr = false) :
     Lex.SpecTokens src (lex none src) := Lex.lex_ok_tokens_sound src h
 
-/-- the exact language of StringValue tokens the lexer is meant to accept -/
-def IsStringToken (t rest : Str) : Prop :=
-  (Lex.IsLexQuoted t ∧ StringLookaheadOk t rest) ∨
-    IsBlockString Lex.anyChar t
+/-- BLOCK STRINGS, both directions, for every source: a StringValue token that starts with `"""` is emitted, leaving
+    `rest`, exactly when the source is `t ++ rest` with `t` a block string of the grammar:
+    `"""` BlockStringCharacter* `"""` where BlockStringCharacter is any character (documented deviation: every character
+    counts as SourceCharacter) that does not start `"""` or `\"""`, or the escape `\"""` — so the token ends at the FIRST
+    unescaped `"""` (maximal munch is not an issue: there is no choice).  Proved state by state for the six block-string
+    states (`Lex.block_run`: from each state, with its pending partial match, the DFA accepts exactly the
+    `Spec.Lexical.BlockBody` continuations). -/
+theorem lex_block_string_iff (src t rest : Str) :
+    (advance src = (.tok .stringValue t, rest) ∧ ∃ tail, t = Lex.q3 ++ tail) ↔
+      (src = t ++ rest ∧ IsBlockString Lex.anyChar t) := Lex.lex_block_string_iff src t rest
 
-/-- a tokenisation in which, in addition, every StringValue token is in that exact language -/
-inductive ExactTokens : Str → List Item → Prop where
-  | eof : ExactTokens [] [.tok .eof []]
-  | cons {k : Kind} {t rest : Str} {items : List Item} : t ≠ [] → Lex.TokenOk k t rest →
-      (k = .stringValue → IsStringToken t rest) → ExactTokens rest items →
-      ExactTokens (t ++ rest) (.tok k t :: items)
+/-- … and an opening `"""` that is not followed by BlockStringCharacter* `"""` yields an ERROR item (unterminated) -/
+theorem lex_block_string_error (r : Str) (hno : ¬ ∃ body rest, r = body ++ rest ∧ Spec.Lexical.BlockBody Lex.anyChar body) :
+    (advance (Lex.q3 ++ r)).1.isErr = true := Lex.lex_block_string_error r hno
 
-/-- The whole-input theorem, both directions — stated, not proved: lexing reports no error exactly
-    when the input has a tokenisation by the lexical grammar, and then the item stream is that
-    tokenisation.  `lex_ok_tokens_sound` is the ⇒ half up to the exact shape of string tokens.
-    Missing: completeness of the string states (every `LexStringChars` quoted string and every block
-    string is accepted) and the exactness of block strings; the per-kind completeness of the other
-    kinds is proved (`lex_number_iff_spec`, `lex_name`, `lex_comment`, `lex_whitespace`,
-    `lex_punctuator`, `lex_spread`). -/
-def lex_ok_iff_spec_tokens : Prop :=
-  ∀ src : Str, ((∀ it ∈ lex none src, it.isErr = false) ↔ ∃ items, ExactTokens src items) ∧
-    (∀ items, ExactTokens src items → lex none src = items)
+-- runs of quotes, exactly as the code: 3, 4 and 5 quotes are unterminated; 6 are the empty block string; of 7 the
+-- first 6 are a token and the 7th starts an unterminated quoted string; `\"""` is an escape, `\\"""` too (the second
+-- backslash escapes the quotes)
+example : lex none "\"\"\"".toList = [.err "\"\"\"".toList, .tok .eof []] := by decide
+example : lex none "\"\"\"\"".toList = [.err "\"\"\"\"".toList, .tok .eof []] := by decide
+example : lex none "\"\"\"\\\"\"\"".toList = [.err "\"\"\"\\\"\"\"".toList, .tok .eof []] := by decide
+example : lex none "\"\"\"a\"\"".toList = [.err "\"\"\"a\"\"".toList, .tok .eof []] := by decide
+example : lex none "\"\"\"\"\"\"".toList = [.tok .stringValue "\"\"\"\"\"\"".toList, .tok .eof []] := by decide
+example : lex none "\"\"\"\"\"\"\"".toList = [.tok .stringValue "\"\"\"\"\"\"".toList, .err "\"".toList, .tok .eof []] := by decide
+example : lex none "\"\"\"\\\\\"\"\"".toList = [.err "\"\"\"\\\\\"\"\"".toList, .tok .eof []] := by decide
+example : lex none "\"\"\"a\\\"\"\"b\"\"\" x".toList =
+    [.tok .stringValue "\"\"\"a\\\"\"\"b\"\"\"".toList, .tok .whitespace " ".toList, .tok .name "x".toList, .tok .eof []] := by decide
+
+/-- the exact language of StringValue tokens: a quoted string in the lexer's exact language, the empty one not followed
+    by a third quote, or a block string -/
+abbrev IsStringToken (t rest : Str) : Prop := Lex.IsStringToken t rest
+
+/-- a tokenisation of the input by the lexical grammar: every item is a token of its kind followed by what its lookahead
+    restriction allows (`Lex.TokenOk`), every StringValue token is in the exact language, the texts concatenate to the
+    input and the stream ends with EOF -/
+abbrev ExactTokens : Str → List Item → Prop := Lex.ExactTokens
+
+/-- EVERY TOKEN OF THE GRAMMAR IS EMITTED (per-kind completeness, assembled): a non-empty text that is a token of kind
+    `k` of the lexical grammar, followed by what the lookahead restriction of its kind allows, is exactly what one
+    `advance` returns -/
+theorem advance_token_complete (k : Kind) (t rest : Str) (hne : t ≠ []) (hok : Lex.TokenOk k t rest)
+    (hstr : k = .stringValue → IsStringToken t rest) : advance (t ++ rest) = (.tok k t, rest) :=
+  Lex.advance_complete k t rest hne hok hstr
+
+/-- **WHOLE INPUT, both directions.**  Lexing reports no error exactly when the input is a concatenation of tokens of
+    the lexical grammar (Name, IntValue, FloatValue, StringValue quoted or block, Comment, punctuators, `...`, runs of
+    whitespace / line terminators / BOM; each with its lookahead restriction), and then the item stream is that
+    tokenisation.  The lexer's language differs from October 2021 in exactly the two documented ways, both explicit in
+    `ExactTokens`: any character counts as SourceCharacter inside strings, block strings and comments (`Lex.anyChar`,
+    the raw-control-character finding), and a `\uXXXX` escape must not be a surrogate (`Lex.LexStringChars`; braced and
+    surrogate-pair escapes are not supported). -/
+theorem lex_ok_iff_spec_tokens (src : Str) :
+    ((∀ it ∈ lex none src, it.isErr = false) ↔ ∃ items, ExactTokens src items) ∧
+    (∀ items, ExactTokens src items → lex none src = items) := Lex.lex_ok_iff_exact src
+
+/-- **Uniqueness**: an input has at most one tokenisation by the lexical grammar with its lookahead restrictions —
+    the maximal-munch one the lexer computes -/
+theorem lex_tokenisation_unique (src : Str) (i1 i2 : List Item) (h1 : ExactTokens src i1) (h2 : ExactTokens src i2) :
+    i1 = i2 := Lex.exactTokens_unique src i1 i2 h1 h2
+
+/-- **Strict corollary**: when the source consists of October-2021 SourceCharacters only, the first deviation is
+    vacuous — every string, block string and comment token of the tokenisation is a token of the UNRELAXED grammar
+    (`isSourceCharacter` in place of `anyChar`).  So for such sources: no lexer error ⟺ the input is a sequence of
+    October-2021 tokens without surrogate / braced unicode escapes. -/
+theorem lex_ok_tokens_strict (src : Str) (hsrc : ∀ c ∈ src, Spec.Lexical.isSourceCharacter c = true)
+    (h : ∀ it ∈ lex none src, it.isErr = false) :
+    ExactTokens src (lex none src) ∧ ∀ k t, Item.tok k t ∈ lex none src → Lex.StrictOk k t := by
+  obtain ⟨items, hi⟩ := (lex_ok_iff_spec_tokens src).1.mp h
+  have := (lex_ok_iff_spec_tokens src).2 items hi
+  rw [this]
+  exact ⟨hi, Lex.exactTokens_strict hi hsrc⟩
 
 end Grammar
 
